@@ -178,6 +178,10 @@ theorem chunk_store (chunk : Bytes) (h : chunk.length ≤ 127) :
 theorem slice_len (rest : Bytes) (j : Nat) : (Py.slice rest j (j + 127)).length ≤ 127 := by
   simp only [Py.slice, List.length_drop, List.length_take]; omega
 
+/-- other spellings of the chunk `rest[j:j + 127]`: `rest[j:][:127]` -/
+theorem chunk_respell (rest : Bytes) (j : Nat) : Py.slice (rest.drop j) 0 127 = Py.slice rest j (j + 127) := by
+  simp only [Py.slice, List.drop_zero, List.take_drop, Nat.add_comm]
+
 /-- THE TIE, snake store: for EVERY byte string and EVERY builder state the regenerated `store_snake_bytes` (iterative: the head
 bytes, then the tail cells built from the end of the chain in a loop-carried local) equals the hand model `BOp.storeSnake`
 (recursive from the head): same decision to raise (`end_cell` of any tail cell, capacity of the first builder), same builder
@@ -190,7 +194,10 @@ theorem src_store_snake_bytes_eq (mk : Bits → List R → Option R) (value : By
   · subst he; simp [ofFlag]
   have hlen : 0 < value.length := List.length_pos_iff.mpr he
   have hemp : value.isEmpty = false := by cases value <;> simp_all
-  rw [if_neg (by omega)]
+  -- the emptiness test, however it is spelled (`len(value) == 0`, `not value`)
+  first
+    | rw [if_neg (by omega)]
+    | rw [if_neg (by simp [he])]
   simp only [hemp, Bool.false_eq_true, if_false]
   by_cases hcap : b.bits.length ≤ 1023
   · -- the invariant case: `available_bytes` is the model's `(1023 - used) / 8`
@@ -204,6 +211,7 @@ theorem src_store_snake_bytes_eq (mk : Bits → List R → Option R) (value : By
         storeBytes_fits (value.take i) b (by rw [List.length_take]; omega)]
       simp only [ofFlag, if_true, bindS_some, Bool.not_true, Bool.false_eq_true, if_false]
       rw [forL_pure (step mk (value.drop i)) _ (fun j s t => by
+        try simp only [chunk_respell]
         simp only [chunk_store _ (slice_len _ j), Py.bindL, end_cell_eq, step]
         cases t with
         | none => simp only [Option.toList]; cases mk _ [] <;> rfl
